@@ -793,6 +793,7 @@ func (tree *MutableTree) SaveVersion() ([]byte, int64, error) {
 	if err := tree.ndb.Commit(); err != nil {
 		return nil, version, err
 	}
+	verifYield("SaveVersion:afterCommit")
 
 	tree.ndb.resetLatestVersion(version)
 	tree.version = version
